@@ -29,15 +29,33 @@ var c17Files = map[string]string{
 	"src/use.lua":   "crossfn(1, 2)\nprint(crossvar, nowhere)\n",
 	"src/ann.lua":   "---@class Animal\n---@field name string\nlocal Animal = {}\n---@type Animal\nlocal pet = nil\nprint(pet.name, pet.age)\n---@type NoSuchType\nlocal z = nil\nprint(z)\n---@param n number\n---@return string\nlocal function f(n) return n end\nprint(f(\"x\"))\n",
 	"ok.lua":        "local fine = 1\nprint(fine)\n",
+	// type 17 (and 4): a local that is only ever assigned
+	"src/t17.lua": "local nu = 1\nnu = 2\nnu = 3\n",
+	// type 11: a member the imported module does not have
+	"ext/modx.lua": "have = 1\nlocal M = {}\nM.have = 1\nreturn M\n",
+	"src/t11.lua":  "local im = import(\"modx.lua\")\nprint(im.have, im.nope)\n",
 }
 
 // C17Config is one configuration in channel-independent form.
 type C17Config struct {
-	AllEnable bool           `json:"all"`
-	Off       []int          `json:"off"`                 // diagnostic types switched off (1..25)
-	IgnErr    []string       `json:"ign_err,omitempty"`   // IgnoreFileOrDirError / IgnoreFileErr
-	IgnHandle []string       `json:"ign_handle,omitempty"` // IgnoreFileOrDir / IgnoreFileOrFloder
+	AllEnable bool             `json:"all"`
+	Off       []int            `json:"off"`                  // diagnostic types switched off (1..25)
+	IgnErr    []string         `json:"ign_err,omitempty"`    // IgnoreFileOrDirError / IgnoreFileErr
+	IgnHandle []string         `json:"ign_handle,omitempty"` // IgnoreFileOrDir / IgnoreFileOrFloder
 	FileTypes map[string][]int `json:"file_types,omitempty"` // IgnoreFileErrTypes (luahelper.json only)
+	// luahelper.json only: OpenErrorTypes, the opt-in list for types 22..29 (OpenSet: the list is
+	// authoritative, i.e. this is a luahelper.json configuration)
+	Open    []int `json:"open,omitempty"`
+	OpenSet bool  `json:"open_set,omitempty"`
+}
+
+func (c C17Config) opened(t int) bool {
+	for _, x := range c.Open {
+		if x == t {
+			return true
+		}
+	}
+	return false
 }
 
 func (c C17Config) off(t int) bool {
@@ -96,6 +114,13 @@ func (c C17Config) jsonFile() string {
 	if len(c.IgnHandle) > 0 {
 		m["IgnoreFileOrFloder"] = c.IgnHandle
 	}
+	if c.OpenSet {
+		open := c.Open
+		if open == nil {
+			open = []int{}
+		}
+		m["OpenErrorTypes"] = open
+	}
 	if len(c.FileTypes) > 0 {
 		var l []interface{}
 		var names []string
@@ -112,11 +137,37 @@ func (c C17Config) jsonFile() string {
 	return string(b)
 }
 
-var c17Patterns = []string{"lib/", "src/", "src/syn.lua", "lib/misc.lua", "src/un.*lua", "lib/i.*\\.lua", "ok.lua", "src/a"}
+var c17Patterns = []string{"lib/", "src/", "src/syn.lua", "lib/misc.lua", "src/un.*lua", "lib/i.*\\.lua", "ok.lua", "src/a", "ext/"}
+
+// importTargetIgnored: an error-ignore rule of the configuration matches the module that
+// src/t11.lua imports.  The server then also drops the importer's type-11 diagnostics about that
+// module (deliberately: analysis_search.go checks the *referenced* file against the ignore rules),
+// which is more than "exactly the matching files' diagnostics" — recorded as a known finding under
+// its own signature.
+func importTargetIgnored(c C17Config) bool {
+	for _, p := range c.IgnErr {
+		if matchesPattern(Root+"/ext/modx.lua", p) {
+			return true
+		}
+	}
+	for p, ts := range c.FileTypes {
+		if matchesPattern(Root+"/ext/modx.lua", p) {
+			for _, t := range ts {
+				if t == 11 {
+					return true
+				}
+			}
+		}
+	}
+	return false
+}
 
 func randC17Config(r *rand.Rand, jsonMode bool) C17Config {
 	c := C17Config{AllEnable: r.Intn(12) > 0}
 	maxType := 25
+	// (luahelper.json's OpenErrorTypes, the opt-in list for types 22..29, is not part of the
+	// property's quantifier and its interplay with the other lists is not documented; it is left at
+	// its default)
 	switch r.Intn(4) {
 	case 0: // one flag off
 		c.Off = []int{1 + r.Intn(maxType)}
@@ -307,6 +358,9 @@ func filterView(all map[string][]string, c C17Config) map[string][]string {
 			if c.off(t) {
 				continue
 			}
+			if c.OpenSet && t >= 22 && t <= 29 && !c.opened(t) {
+				continue // an opt-in type that this luahelper.json does not open
+			}
 			drop := false
 			for p, ts := range c.FileTypes {
 				if matchesPattern(path, p) {
@@ -337,6 +391,11 @@ func knobConfig(v interface{}) C17Config {
 
 func allEnabled() C17Config { return C17Config{AllEnable: true} }
 
+// allEnabledJSON: the luahelper.json reference configuration — nothing ignored, every opt-in type open.
+func allEnabledJSON() C17Config {
+	return C17Config{AllEnable: true, OpenSet: true, Open: []int{22, 23, 24, 25, 26, 27, 28, 29}}
+}
+
 // withoutIgnoredFiles removes files whose analysis the configuration excludes.
 func withoutIgnoredFiles(fs []File, c C17Config) []File {
 	var out []File
@@ -366,10 +425,14 @@ func checkC17(t *testing.T, sc *Scenario) *Verdict {
 	fail := func(r *RunResult, what string) *Verdict {
 		return bad("c17-run-"+r.Outcome, what+": "+r.Outcome, r.Detail)
 	}
+	var filterCfg *C17Config // the configuration whose filter view is being compared (nil: none)
 	cmp := func(class, what string, got, want map[string][]string, extra string) *Verdict {
 		types, d := diffViews(got, want)
 		if d == "" {
 			return nil
+		}
+		if class == "c17-not-a-filter" && filterCfg != nil && len(types) == 1 && types[0] == "11" && importTargetIgnored(*filterCfg) && strings.Contains(d, "only/more in B") {
+			return bad(class, "imported-module-error-ignored: type 11 of the importer silenced too", fmt.Sprintf("A=observed B=expected: %s\n--- observed:\n%s--- expected:\n%s", d, viewToString(got), viewToString(want)))
 		}
 		return bad(class, fmt.Sprintf("%s diag-type:%s%s", what, strings.Join(types, ","), extra), fmt.Sprintf("A=observed B=expected: %s\n--- observed:\n%s--- expected:\n%s", d, viewToString(got), viewToString(want)))
 	}
@@ -397,6 +460,7 @@ func checkC17(t *testing.T, sc *Scenario) *Verdict {
 		if len(c.IgnHandle) > 0 {
 			extra = " +ignore-analysis"
 		}
+		filterCfg = &c
 		if vv := cmp("c17-not-a-filter", "client-settings", a.View, filterView(base.View, c), extra+specialGate(c)); vv != nil {
 			return vv
 		}
@@ -581,6 +645,7 @@ func checkC17(t *testing.T, sc *Scenario) *Verdict {
 		if len(c.IgnHandle) > 0 {
 			extra = " +ignore-analysis"
 		}
+		filterCfg = &c
 		if vv := cmp("c17-not-a-filter", "luahelper.json", a.View, filterView(base.View, c), extra); vv != nil {
 			return vv
 		}
